@@ -6,6 +6,7 @@ import GdVerif.Run.Gs1
 import GdVerif.Run.GenGs1
 import GdVerif.Run.Gs2
 import GdVerif.Run.GenGs2
+import GdVerif.Run.Gs2Faults
 import GdVerif.Run.Master
 import GdVerif.Run.GenMaster
 import GdVerif.Run.Settings
@@ -58,7 +59,8 @@ def allEntries : List (String × (List String → String)) := List.flatten [
   jc2mEntries,
   smallEntries,
   gs1Entries,
-  gs2Entries
+  gs2Entries,
+  gs2FaultEntries
   ]
 
 def runLine (line : String) : String :=
